@@ -24,7 +24,8 @@ ASSUMPTIONS = [
     'a deferred delete issued by a callback while a frame applies deletions may take effect in that frame or '
     'in the next one (either is accepted, the entity must not exist in between)',
     'an id whose row vanished while its deletion was pending is not re-populated before the next process()',
-    'process() runs under a deterministic budget of 200000 executed lines inside desper (hang detection)',
+    'process() runs under a deterministic budget of 200000 executed lines inside desper, plus 4000 per step of an '
+    'amplified history (hang detection)',
     'after a legitimately failed frame (k ids that owned nothing were deferred-deleted) one of the next k frames must succeed with all '
     'pending deletions applied',
 ]
